@@ -49,15 +49,39 @@ def main(argv=None):
     try:
         return decide(pid, args.tier, seed, args.replay, t0)
     except core.HarnessError as e:
-        print(f"HARNESS-ERROR property={pid}: {e}", file=sys.stderr)
-        return 2
+        return harness_failure(pid, args.tier, seed, f"{e}")
     except subprocess_timeout() as e:  # pragma: no cover
         print(f"HARNESS-TIMEOUT property={pid}: {e}", file=sys.stderr)
         return 2
     except Exception:
+        tb = traceback.format_exc()
         traceback.print_exc()
-        print(f"HARNESS-ERROR property={pid}: unexpected exception", file=sys.stderr)
+        return harness_failure(pid, args.tier, seed, "unexpected exception: " + tb[-1500:])
+
+
+def harness_failure(pid, tier, seed, what):
+    """A precondition of the machinery failed.  On the tree the baselines were recorded against that is a machinery defect
+    (exit 2, nothing is claimed).  On a DIFFERENT source tree the controls and generators of a check are themselves a
+    correspondence with the code (they render, load and behave as planned on the recorded tree), so their failure is a broken
+    tie: the property is no longer shown to hold — reported as a violation without a failing input."""
+    try:
+        changed = not core.source_is_baseline()
+    except Exception:
+        changed = False
+    if not changed:
+        print(f"HARNESS-ERROR property={pid}: {what}", file=sys.stderr)
         return 2
+    rdir = core.VERIF / "replays"
+    rdir.mkdir(exist_ok=True)
+    path = rdir / f"{pid}-{seed}-tie.json"
+    path.write_text(json.dumps({
+        "property": pid, "key": f"{pid}:tie:harness-precondition", "tier": tier, "seed": seed,
+        "what": "a precondition of the check (a control, a planned case, a generator invariant) no longer holds on this source "
+                "tree, which differs from the one the baselines were recorded against: the correspondence is broken",
+        "detail": what, "no_failing_input_found": True}, indent=1))
+    print(f"  {pid}:tie:harness-precondition: {what[:600]}")
+    print(f"VIOLATION property={pid} replay={path} no-failing-input-found")
+    return 1
 
 
 def subprocess_timeout():
